@@ -2,7 +2,7 @@
 // (base case: instantiate on an empty book).  By induction wf holds in every reachable state, which is what
 // each handler `requires`.  All lemmas are over the very predicates the handlers ensure.
 
-//@lemma props=*
+//@lemma props=C01,C06,C08,C09,C11,*
 pub proof fn lemma_wf_create_ask(st: StoreV, st2: StoreV, a: AskOrderV1, sender: Seq<char>)
     requires wf(st), create_ask_only_if(st, a, sender), create_ask_recorded(st, st2, a)
     ensures wf(st2)
@@ -13,7 +13,7 @@ pub proof fn lemma_wf_create_ask(st: StoreV, st2: StoreV, a: AskOrderV1, sender:
     }
 }
 
-//@lemma props=*
+//@lemma props=C01,C06,C08,C09,C11,*
 pub proof fn lemma_wf_create_bid(st: StoreV, st2: StoreV, b: BidOrderV3, sender: Seq<char>)
     requires wf(st), create_bid_only_if(st, b, sender), create_bid_recorded(st, st2, b),
              b.accumulated_base.v == 0 && b.accumulated_quote.v == 0 && b.accumulated_fee.v == 0,
@@ -35,7 +35,7 @@ pub proof fn lemma_wf_create_bid(st: StoreV, st2: StoreV, b: BidOrderV3, sender:
     }
 }
 
-//@lemma props=*
+//@lemma props=C01,C06,C08,C09,C11,*
 pub proof fn lemma_wf_approve(st: StoreV, st2: StoreV, sender: Addr, id: Seq<char>, base: Seq<char>, size: int)
     requires wf(st), approve_only_if(st, sender, id, base, size), approve_recorded(st, st2, sender.s@, id, base, size)
     ensures wf(st2)
@@ -48,7 +48,7 @@ pub proof fn lemma_wf_approve(st: StoreV, st2: StoreV, sender: Addr, id: Seq<cha
     }
 }
 
-//@lemma props=*
+//@lemma props=C01,C06,C08,C09,C11,*
 pub proof fn lemma_wf_cancel_ask(st: StoreV, st2: StoreV, id: Seq<char>)
     requires wf(st), cancel_ask_state(st, st2, id)
     ensures wf(st2)
@@ -58,7 +58,7 @@ pub proof fn lemma_wf_cancel_ask(st: StoreV, st2: StoreV, id: Seq<char>)
     }
 }
 
-//@lemma props=*
+//@lemma props=C01,C06,C08,C09,C11,*
 pub proof fn lemma_wf_reverse_ask(st: StoreV, st2: StoreV, sender: Addr, funds: Seq<Coin>, id: Seq<char>, cancel_size: Option<Uint128>)
     requires wf(st), reverse_ask_only_if(st, sender, funds, id, cancel_size), reverse_ask_state(st, st2, id, cancel_size)
     ensures wf(st2)
@@ -96,7 +96,7 @@ pub proof fn lemma_bid_advance_wf(b: BidOrderV3, b2: BidOrderV3, k: Seq<u8>, i: 
     }
 }
 
-//@lemma props=*
+//@lemma props=C01,C06,C08,C09,C11,*
 pub proof fn lemma_wf_reverse_bid(st: StoreV, st2: StoreV, sender: Addr, funds: Seq<Coin>, id: Seq<char>, action: ContractAction, cancel_size: Option<Uint128>)
     requires wf(st), reverse_bid_only_if(st, sender, funds, id, action, cancel_size), reverse_bid_state(st, st2, id, cancel_size)
     ensures wf(st2)
@@ -140,7 +140,7 @@ pub proof fn lemma_match_fee_share(st: StoreV, sender: Addr, funds: Seq<Coin>, a
     lemma_fee_released_mono(b, q.g, q.og);
 }
 
-//@lemma props=*
+//@lemma props=C01,C06,C08,C09,C11,*
 pub proof fn lemma_wf_match(st: StoreV, st2: StoreV, sender: Addr, funds: Seq<Coin>, ask_id: Seq<char>, bid_id: Seq<char>, price: Seq<char>, size: int)
     requires wf(st), match_only_if(st, sender, funds, ask_id, bid_id, price, size),
              match_state_ask(st, st2, ask_id, size), match_state_bid(st, st2, ask_id, bid_id, price, size),
@@ -201,7 +201,7 @@ pub proof fn lemma_order_wf_under_same_params(st: StoreV, st2: StoreV)
     }
 }
 
-//@lemma props=*
+//@lemma props=C01,C06,C08,C09,C11,*
 pub proof fn lemma_wf_modify(st: StoreV, st2: StoreV, approvers: Option<Vec<String>>, executors: Option<Vec<String>>,
     ask_fee_rate: Option<String>, ask_fee_account: Option<String>, bid_fee_rate: Option<String>, bid_fee_account: Option<String>,
     ask_required_attributes: Option<Vec<String>>, bid_required_attributes: Option<Vec<String>>)
@@ -214,7 +214,7 @@ pub proof fn lemma_wf_modify(st: StoreV, st2: StoreV, approvers: Option<Vec<Stri
     lemma_order_wf_under_same_params(st, st2);
 }
 
-//@lemma props=*
+//@lemma props=C01,C06,C08,C09,C11,*
 pub proof fn lemma_wf_instantiate(st: StoreV, st2: StoreV, m: InstantiateMsg)
     requires st.asks.dom() =~= Set::<Seq<u8>>::empty(), st.bids.dom() =~= Set::<Seq<u8>>::empty(),
              inst_only_if(m), st2.info is Some, inst_stored(m, st2.info->0), st2.asks == st.asks, st2.bids == st.bids
@@ -263,7 +263,7 @@ pub proof fn lemma_wf_migrate(st: StoreV, st2: StoreV, m: MigrateMsg, pkg: Seq<c
 }
 
 /// THE inductive step: a successful execute request on a well-formed book leaves a well-formed book
-//@lemma props=*
+//@lemma props=C01,C06,C08,C09,C11,*
 pub proof fn lemma_exec_preserves_wf(st: StoreV, st2: StoreV, c: Seq<char>, sender: Addr, funds: Seq<Coin>, msg: ExecuteMsg,
                                      msgs: Seq<Msg>, attrs: Seq<(Seq<char>, Seq<char>)>)
     requires wf(st), exec_msg_valid(msg), exec_post(st, st2, c, sender, funds, msg, msgs, attrs)
